@@ -64,6 +64,7 @@ pub fn run_c05(p: &mut Prng, t: Tier, i: usize, sink: &mut Sink) {
     let mut w = World::new();
     if i == 0 {
         annex_enc_session(&mut w);
+        openssl_ciphertexts(&mut w);
         sink.done(w);
         return;
     }
@@ -103,6 +104,28 @@ pub fn run_c05(p: &mut Prng, t: Tier, i: usize, sink: &mut Sink) {
         w.samples.push(json!({"schedule": w.history.iter().take(12).cloned().collect::<Vec<_>>() }));
     }
     sink.done(w);
+}
+
+/// Ciphertexts from an independent encryptor (OpenSSL, committed corpus), converted from their
+/// GM/T 0009 DER form to the raw C1||C3||C2 and C1||C2||C3 forms by the reference DER reader.
+fn openssl_ciphertexts(w: &mut World) {
+    let c = crate::gen_c19::corpus();
+    for (i, it) in c["items"].as_array().unwrap().iter().enumerate() {
+        let s = |x: &str| format!("ossl{i}.{x}");
+        let kd = c["keys"].as_array().unwrap().iter().find(|k| k["name"] == it["key"]).unwrap();
+        let der = hex::decode(it["ct_der"].as_str().unwrap()).unwrap();
+        w.exec(set(&s("d"), &hex::decode(kd["d"].as_str().unwrap()).unwrap()));
+        w.exec(set(&s("msg"), &hex::decode(it["msg"].as_str().unwrap()).unwrap()));
+        for (order, o) in [("C1C3C2", Order::C1C3C2), ("C1C2C3", Order::C1C2C3)] {
+            for comp in [false, true] {
+                if let Some(raw) = crate::refmodel::der::sm2_cipher_from_der(&der, o, comp) {
+                    w.exec(set(&s("ct"), &raw));
+                    w.exec(dec_op(&format!("ossl{i}"), order, comp));
+                    w.exec(json!({"op":"assert.eq","a":s("pt"),"b":s("msg"),"property":"C05","oracle":"O5.4-openssl-ciphertext","entry":"sm2.decrypt","class":"openssl","what":"OpenSSL ciphertext does not decrypt to the message"}));
+                }
+            }
+        }
+    }
 }
 
 fn annex_enc_session(w: &mut World) {
